@@ -91,7 +91,7 @@ CONC = {
                 trusted_base=TB_CONC,
                 assumptions=['the reservation step carries the value its own Add returned and the limit the thread loads next; that the code hands back a reservation above that limit is part of the replayed protocol (no assumption that there is one event loop)',
                              'n < 1 means runtime.NumCPU() (config.go withSafeConcurrency; covered by the lifecycle model C14_tunepool_sets_concurrency)']),
-    'C06': dict(module='Properties.C06', file='Properties/C06.v', slices=['disp'],
+    'C06': dict(module='Properties.C06', file='Properties/C06.v', slices=['disp', 'barrier'],
                 families=['burst', 'lifecycle', 'cancel', 'saturate', 'pool', 'persist', 'ctlrace'],
                 quick_episodes=250, thorough_episodes=3000,
                 rule=SLICE_DISP_RULE, trusted_base=TB_CONC,
@@ -127,14 +127,14 @@ CONC = {
                              'distributed queues: the adapter delivers an "enqueued" notification per accepted item (adapter contract; family dist monitors the drain)',
                              '"no job left Processing without a goroutine" (a payload sent to a pool node has a live server): monitored (never-ran / stuck-goroutine), rests on the idle list\'s Remove result being the ownership transfer']),
     'C05': dict(module='Properties.C05', file='Properties/C05.v', slices=['job'],
-                families=['burst', 'lifecycle', 'cancel', 'batch'],
+                families=['burst', 'lifecycle', 'cancel', 'batch', 'readers'],
                 quick_episodes=250, thorough_episodes=3000,
                 native=dict(scenarios=['bigbatch'], rounds=1, thorough_rounds=1),
                 rule=SLICE_JOB_RULE + '; native mode: a batch of more than 1024 items whose caller Waits before reading the stream', trusted_base=TB_CONC,
                 assumptions=['"they do return" is progress (C03: every accepted job is eventually closed) plus C05_wait_stays_enabled',
                              'Result()/Err() read the per-job response channel, which the finisher fills before it closes the job (order fixed by program order of the pool goroutine; monitored)']),
     'C07': dict(module='Properties.C07', file='Properties/C07.v', slices=['resp', 'job'],
-                families=['burst', 'batch', 'cancel', 'lifecycle'],
+                families=['burst', 'batch', 'cancel', 'lifecycle', 'readers'],
                 quick_episodes=300, thorough_episodes=4000,
                 native=dict(scenarios=['outcomes'], rounds=1, thorough_rounds=1),
                 rule=SLICE_JOB_RULE + '; native mode: 700 jobs with value / error / panic(int) / panic(struct) / panic([]byte) outcomes on error, result and plain workers at concurrency 4..6 under real parallelism, every handle read twice; per single error / result job the channel operations on its response are projected onto coq/SliceResp.v (send, close, receives with payload digests) and replayed; '
